@@ -110,12 +110,15 @@ func makeFrame(r *rand.Rand, from, to *wire.Router, id int, size int, prio bool)
 		if err != nil {
 			return nil, nil, err
 		}
+		// any TTL and any flow-control byte (the upper bits are legal on the wire, whatever this router sets itself)
+		ff.SetTTL(uint8(r.IntN(256)))
+		ff.SetFlowControl(uint8(r.IntN(256)))
 		f = ff
 	} else {
 		// beyond what NewFrameV1 builds: a parsed frame with a long message field
 		msg := size - 51 - auth
 		img := make([]byte, 0, size)
-		img = append(img, 1, 32, 0, 0, byte(mt))
+		img = append(img, 1, byte(r.IntN(256)), byte(r.IntN(256)), 0, byte(mt))
 		img = append(img, core.RandBytes(r, 11)...)
 		a := from.Inst.IdentityV.IP.As16()
 		img = append(img, a[:]...)
